@@ -264,6 +264,83 @@ def check_c06(tier: str) -> int:
                             "failure": f"reference reader: {[(f[0], f[1], f[2], f[3], f[5]) for f in frames]} (to, from, id, type, crc ok), left over {len(left)} bytes"})
         finally:
             rig.close()
+    # ---- (a'') headers that bring the check register to 0 (and to 0xFFFF) before the payload ----------------------
+    # The register is 16 bits of state like any other; a calculator that treats 0 (or its start value) as "nothing
+    # accumulated yet" is wrong for one header in 65536.  Such headers are found by search with the reference CRC, then
+    # (i) written by the send path, (ii) received as frames.
+    for gen in (4, 5):
+        rig = rxrig.RxRig(gen)
+        try:
+            reg = sockrun.registry(gen)
+            cat = [m for m, c in sockrun.catalogue(gen) if c == sockrun.ENC_OK]
+            msg = cat[0]
+            enc = reg.get_encoder(msg.message_id)
+            for want in (0x0000, 0xFFFF):
+                found = None
+                for _ in range(40):
+                    h0 = reg.header_factory.create_from_message(msg, enc.size(msg))
+                    if not rig.connect():
+                        break
+                    conn = rig.net.current()
+                    before = len(conn.out)
+                    rig.loop.create_task(rig.sock.send_with_header(h0, msg, psock.RETRY_NON_IDEMPOTENT))
+                    rig.loop.settle()
+                    fs, _left = sockrun.split_frames(gen, bytes(conn.out[before:]))
+                    if len(fs) != 1:
+                        break
+                    _to, _frm, pid, mtype, payload, _ok = fs[0][:6]
+                    tail = bytes([pid, mtype]) + struct.pack(">H", len(payload))
+                    hits = [(to, frm) for to in range(256) for frm in range(256)
+                            if sockrun.crc16_ref(bytes([to, frm]) + tail) == want]
+                    if hits:
+                        found = (hits[0], h0, payload, pid, mtype)
+                        break
+                if found is None:
+                    ck.extra.setdefault("notes", []).append(f"AT{gen}: no header with check register {want:#06x} found in 40 packet ids")
+                    continue
+                (to, frm), h0, payload, pid, mtype = found
+                ck.count()
+                dist["register_%04x_headers" % want] += 1
+                conn = rig.net.current()
+                before = len(conn.out)
+                hdr = dataclasses.replace(h0, to_address=to, from_address=frm)
+                rig.loop.create_task(rig.sock.send_with_header(hdr, msg, psock.RETRY_NON_IDEMPOTENT))
+                rig.loop.settle()
+                data = bytes(conn.out[before:])
+                fs, left = sockrun.split_frames(gen, data)
+                rep = {"kind": "crc-register", "gen": gen, "to_address": to, "from_address": frm, "packet_id": pid,
+                       "register_after_header": want, "message": repr(msg)[:120],
+                       "trigger": {"class": "crc-register", "gen": gen, "register": want}}
+                if not (len(fs) == 1 and not left and fs[0][5]):
+                    ck.violation("check bytes written by the send path are wrong for a header that brings the check register to "
+                                 f"{want:#06x}", dict(rep, written_hex=data.hex(),
+                                                      failure=f"reference reader: {[(f[0], f[1], f[2], f[3], f[5]) for f in fs]} (to, from, id, type, crc ok)"))
+                # (ii) the same header on a frame FROM the console: it is intact, so it is delivered
+                rx = rxrig.frame_library(gen, random.Random(5), 1)[0]
+                pre_ = 2 if gen == 4 else 14
+                rpid, rtype = rx[pre_ + 2], rx[pre_ + 3]
+                rpayload = rx[pre_ + 6:-2]
+                rtail = bytes([rpid, rtype]) + struct.pack(">H", len(rpayload))
+                rhits = []
+                for p2 in range(256):
+                    rtail = bytes([p2, rtype]) + struct.pack(">H", len(rpayload))
+                    rhits = [(a, b, p2) for a in (0xB0, 0x80, 0x90) for b in range(256) if sockrun.crc16_ref(bytes([a, b]) + rtail) == want]
+                    if rhits:
+                        break
+                if rhits:
+                    a, b, p2 = rhits[0]
+                    fr = sockrun.build_frame(gen, a, b, p2, rtype, rpayload)
+                    if rig.connect():
+                        rig.take()
+                        rig.feed([fr])
+                        ds, _, reset, _unh = rig.take()
+                        ck.count()
+                        dist["register_%04x_frames_received" % want] += 1
+                        if len(ds) != 1 or reset:
+                            ck.violation(f"an intact frame whose header brings the check register to {want:#06x} is not delivered",
+                                         dict(rep, kind="crc-register-rx", frame_hex=fr.hex(), failure=f"deliveries {len(ds)}, reset {reset}"))
+        finally:
+            rig.close()
     # ---- (b) corrupted frames through the real receive path ---------------------------------
     known_hits = Counter()
     for gen in (4, 5):
@@ -297,6 +374,17 @@ def check_c06(tier: str) -> int:
                             "kind": "corrupt-frame", "gen": gen, "trigger": {"what": "no-reconnect"}})
                         break
                     vloop.log_debug(ck.evaluations % 2 == 0)      # the DEBUG-only frame dump is code under check too
+                    if ck.evaluations % 3 == 0:
+                        # the usual history of a damaged frame: the console has sent the same frame before, intact, on this
+                        # connection (a status it repeats).  Having accepted a frame says nothing about the next one.
+                        rig.feed([fr])
+                        rig.take()
+                        dist["damaged_copy_after_the_intact_frame"] += 1
+                        replay_prefix = fr.hex()
+                        if not rig.connect():
+                            break
+                    else:
+                        replay_prefix = None
                     rig.feed([bad])
                     ds, msgs, reset, unh = rig.take()
                     m_ds, m_alive, m_buf = rxrig.parse_model_stream(mr)
@@ -304,6 +392,7 @@ def check_c06(tier: str) -> int:
                     dist["detectable" if det else "outside_guarantee"] += 1
                     replay = {"kind": "corrupt-frame", "gen": gen, "frame_hex": fr.hex(), "received_hex": bad.hex(),
                               "pattern_covered_hex": em.hex(), "pattern_check_hex": f"{eh:02x}{el:02x}", "class": label,
+                              "intact_frame_received_first_hex": replay_prefix,
                               "delivered": [list(d) for d in ds], "model_delivered": [list(d) for d in m_ds]}
                     if ds:
                         if det:
